@@ -34,6 +34,7 @@ This file is part of libECBUFR.
 #ifndef _bufr_value_h
 #define _bufr_value_h
 
+#include <stddef.h>
 #include <inttypes.h>
 #include "bufr_af.h"
 
@@ -86,6 +87,8 @@ extern int32_t        bufr_value_get_int32      ( const BufrValue *bv );
 
 extern int            bufr_print_value          ( char *str, const BufrValue * );
 extern int            bufr_print_scaled_value   ( char *outstr, const BufrValue *bv, int scale );
+extern int            bufr_snprint_value        ( char *outstr, size_t size, const BufrValue *bv );
+extern int            bufr_snprint_scaled_value ( char *outstr, size_t size, const BufrValue *bv, int scale );
 
 
 extern uint64_t       bufr_missing_ivalue       ( int nbits );
@@ -111,6 +114,7 @@ extern float          bufr_get_max_float        ( void );
 extern void           bufr_print_float          ( char *str, float fval );
 extern void           bufr_print_scaled_float   ( char *str, float fval, int scale );
 extern void           bufr_print_binary         ( char *outstr, int64_t  ival, int nbit );
+extern void           bufr_snprint_binary       ( char *outstr, size_t size, int64_t  ival, int nbit );
 extern int64_t        bufr_binary_to_int        ( const char *str );
 extern int            bufr_str_is_binary        ( const char *str );
 
